@@ -129,7 +129,13 @@ class InMemoryMessageBroker(MessageBrokerT):
         await asyncio.sleep(0)
 
         if queue_name in self.queues:
-            self.queues[queue_name] = DummyQueue()
+            # empty the queue in place: its consumers hold a reference to this very object
+            q = self.queues[queue_name]
+            q.simple = asyncio.Queue()
+            q.delayed.clear()
+            q.dead.clear()
+            q.processing.clear()
+            q.taken_by.clear()
 
         await asyncio.sleep(0)
 
